@@ -15,7 +15,7 @@ from ..loader import AnalysisError, ClassInfo, dotted
 from ..astutil import walk_own, calls_in, norm, Defs, leaves, stmt_of, returns_of, bind_call, kwarg
 from .. import cfg as cfgmod
 from ..calls import CallCtx, reachable_funcs
-from ..effects import Effects
+from ..effects import Effects, get_effects
 from ..domains import RankEval, alias_class, SAME
 from ..variants import Witness
 from .common import exception_classes, is_exception_ctor, vectorizable_classes, concrete_defs
@@ -151,7 +151,7 @@ def rule_r3(p, res):
 
 def rule_r4(p, res):
     r = res.rule("C05.R4", "from_vector has an empty mutation summary on its receiver")
-    eff = Effects(p)
+    eff = get_effects(p)
     n = 0
     for c in vectorizable_classes(p):
         f = p.lookup(c, "from_vector")
@@ -251,7 +251,7 @@ def rule_r5(p, res):
 def rule_r6(p, res):
     r = res.rule("C05.R6", "alignment classes reach _sync_target_from_state after every parameter write")
     al = p.cls("Alignment")
-    eff = Effects(p)
+    eff = get_effects(p)
     sync = p.method("Targetable", "_sync_target_from_state")
     for c in vectorizable_classes(p):
         if al not in c.mro:
